@@ -88,7 +88,7 @@ theorem big_raised (g : Graph) (d : DenCfg) (ok : GraphOK g) : ∀ (f : Nat) (t 
             | true => exact absurd hx (hi.mh n (by simp) hd hact)
           have hpre1 : PreC g G true (.prog n (e0.hashProg (g.parents n).length)) :=
             ⟨⟨hact, hlive, hflag⟩, hashProg_noEff e0 _ hwf, fun _ => hashProg_noCur e0 _ hwf⟩
-          have hden := (den_inner g d ok n e0 he).1
+          have hden := (den_inner g d ok.toGraphBase n e0 he).1
           rw [interp_noCur (ctxOf g d n) _ _ (hashProg_noCur e0 _ hwf)] at hden
           cases hq : big g f (.prog n (e0.hashProg (g.parents n).length)) m with
           | fuel => simp [hq] at hb
@@ -139,7 +139,7 @@ theorem big_raised (g : Graph) (d : DenCfg) (ok : GraphOK g) : ∀ (f : Nat) (t 
             | true => exact absurd hx (hi.mv n (by simp) hd hact)
           have hpre1 : PreC g G false (.prog n (e0.evalProg (g.parents n).length)) :=
             ⟨⟨hact, hlive, hflag⟩, evalProg_noEff e0 _ hwf, fun h => by cases h⟩
-          have hden := (den_inner g d ok n e0 he).2
+          have hden := (den_inner g d ok.toGraphBase n e0 he).2
           cases hq : big g f (.prog n (e0.evalProg (g.parents n).length)) m with
           | fuel => simp [hq] at hb
           | raised e1 m1 =>
